@@ -82,6 +82,11 @@ def spec (_ : Unit) (op : String) (obs : String) : String :=
     match o?, arg? ws "axisdata", obsParts, parseDah ws, natArg? ws "index", (arg? ws "axis").bind String.toInt? with
     | some o, some ad, some (honest, axpar), some dah, some index, some axisI =>
       let axis : Option (List Bytes) := if ad == "none" then none else parseHexList ad
+      -- (S9) `axisns=`: the namespaces the axis leaves were COMMITTED under, when the block producer did not follow the
+      -- protocol's rule (first quadrant: the share's own first 29 bytes; elsewhere the parity namespace)
+      let ruleNs (a : List Bytes) (i : Nat) : Bytes :=
+        if index < a.length / 2 ∧ i < a.length / 2 then (a.getD i []).take 29 else List.replicate 29 255
+      let committedNs : Option (List Bytes) := (arg? ws "axisns").bind parseHexList
       -- the axis shares on the line must be the ones the header commits to: their NMT root is the DAH's root
       let bound : Bool :=
         match axis with
@@ -90,13 +95,27 @@ def spec (_ : Unit) (op : String) (obs : String) : String :=
           let w := a.length
           let leaves := (List.range w).map (fun i =>
             let d := a.getD i []
-            hashLeaf sha (if index < w / 2 ∧ i < w / 2 then d.take 29 else List.replicate 29 255) d)
+            hashLeaf sha (match committedNs with
+              | some nss => nss.getD i []
+              | none => ruleNs a i) d)
           let expected := if axisI = 0 then dah.rowRoot? index else dah.colRoot? index
           match computeRoot sha true leaves with
           | .ok r => expected == some r
           | .error _ => false
+      -- "a codeword CONSISTENT WITH ITS ROOT": the root must be the one the protocol's rule gives for these shares
+      let consistent : Bool :=
+        match axis, committedNs with
+        | some a, some nss => nss == (List.range a.length).map (ruleNs a)
+        | _, _ => true
       if !bound then "specfail C07/stale-ground-truth the axis shares on the line are not the ones the header's DAH commits to"
       else if o == .panic then "specfail C07/validate-panic validate panicked"
+      else if !consistent then
+        -- the committed root is not the root of these shares under the protocol's leaf-namespace rule: whatever the
+        -- shares are, the axis is not "a codeword consistent with its root"; no soundness obligation, and an honest
+        -- proof (each share proven at its own position under the namespace it was committed with) must validate
+        if honest && o != .ok then
+          "specfail C07/honest-fraud-proof-rejected an honest proof of an axis committed under forged leaf namespaces did not validate"
+        else "specok"
       -- an axis wider than the 256 shards of the codec has no reference encoding: nothing can be proven about it, so no
       -- proof may validate (and there is no completeness obligation)
       else if Lumina.Spec.C07.specValidate (fun _ => axpar) (match axis with | some a => if a.length > 256 then none else some a | none => none)
